@@ -92,6 +92,9 @@ def class_text(ci, bases, members, base_expr):
             lines += ['    def set_%d(self):' % mi]
             pos[mi] = (len(lines), 8)
             lines += ['        self.%s = 2' % n]
+        elif k == 'self_ann':
+            # a bare annotation: no attribute is created at run time
+            lines += ['    def ann_%d(self):' % mi, '        self.%s: int' % n]
     if inits:
         lines += ['    def __init__(self):']
         for mi, n in inits:
@@ -169,6 +172,8 @@ def oracle(h, members, attr, via):
     inst_attrs = set()
     for ci in order:
         for mi, (k, n) in enumerate(members[ci]):
+            if k == 'self_ann':
+                continue
             if k in ('self_init', 'self_other'):
                 inst_attrs.add(n)
             else:
@@ -178,7 +183,7 @@ def oracle(h, members, attr, via):
                   if n == a and k in ('self_init', 'self_other')]
     class_site = None
     for ci in order:
-        hit = [mi for mi, (k, n) in enumerate(members[ci]) if n == a and k not in ('self_init', 'self_other')]
+        hit = [mi for mi, (k, n) in enumerate(members[ci]) if n == a and k not in ('self_init', 'self_other', 'self_ann')]
         if hit:
             # the class body binds the name once per statement; the last statement wins in vars()
             class_site = (ci, hit[-1])
@@ -355,13 +360,15 @@ def decode(h, m0, m1, m2, m3, extra):
             ms.append([(KINDS[code // 2], NAMES[code % 2])])
     if extra < 10:
         ms[0].append((KINDS[extra // 2], NAMES[extra % 2]))
+    elif extra > 10:
+        ms[0].append(('self_ann', NAMES[extra - 11]))
     return ms
 
 
 def check(h: int, m0: int, m1: int, m2: int, m3: int, extra: int, form: int, attr: int, via: int) -> bool:
     """
     pre: 0 <= h <= 8
-    pre: 0 <= m0 <= 10 and 0 <= m1 <= 10 and 0 <= m2 <= 10 and 0 <= m3 <= 10 and 0 <= extra <= 10
+    pre: 0 <= m0 <= 10 and 0 <= m1 <= 10 and 0 <= m2 <= 10 and 0 <= m3 <= 10 and 0 <= extra <= 12
     pre: 0 <= form <= 3 and 0 <= attr <= 1 and 0 <= via <= 2
     post: _
     """
@@ -370,7 +377,7 @@ def check(h: int, m0: int, m1: int, m2: int, m3: int, extra: int, form: int, att
     h = _c(h, 0, 8)
     n = len(HIER[h])
     m0, m1, m2, m3 = _c(m0, 0, 10), _c(m1, 0, 10) if n > 1 else 10, _c(m2, 0, 10) if n > 2 else 10, _c(m3, 0, 10) if n > 3 else 10
-    extra, form, attr, via = _c(extra, 0, 10), _c(form, 0, 3), _c(attr, 0, 1), _c(via, 0, 2)
+    extra, form, attr, via = _c(extra, 0, 12), _c(form, 0, 3), _c(attr, 0, 1), _c(via, 0, 2)
     with NoTracing():
         if TWIN[0]:
             return False
